@@ -213,11 +213,5 @@ func (c *Ctx) checkSat(pos int, extra string, dir, name string, timeoutS int) st
 	file := filepath.Join(dir, name+".smt2")
 	os.WriteFile(file, []byte(b.String()), 0o644)
 	st, _ := runSolver(context.Background(), solvers[0], file, timeoutS, 0)
-	if st != "sat" && st != "unsat" {
-		st2, _ := runSolver(context.Background(), solvers[1], file, timeoutS, 0)
-		if st2 == "sat" || st2 == "unsat" {
-			return st2
-		}
-	}
 	return st
 }
